@@ -108,8 +108,20 @@ var badMonetaryObjects = []named{{"asset-invalid", `{"asset":"usd","amount":1}`}
 var badNumbers = []named{{"fraction", "1.5"}, {"garbage", "abc"}, {"empty", ""}}
 var badPortions = []named{{"above-one", "2/1"}, {"zero-denominator", "1/0"}, {"garbage", "abc"}, {"percent-above-100", "150%"}, {"empty", ""}}
 
+// badScripts: Numscript texts that no runtime can run (definitely invalid client input),
+// simplest first: the parser refuses the first three, the compiler (machine) or the
+// evaluation (interpreter) the others.
+var badScripts = []named{
+	{"script-unclosed", "send [USD/2 1] (\n source = @world\n"},
+	{"script-unknown-statement", "sned [USD/2 1] (\n source = @world\n destination = @dave\n)"},
+	{"script-garbage", "%%%"},
+	{"script-undeclared-variable", "send $nope (\n source = @world\n destination = @dave\n)"},
+	{"script-account-as-amount", "send @world (\n source = @world\n destination = @dave\n)"},
+}
+
 func scriptVarValues(prefix string) (map[string][]named, map[string][]named) {
 	return map[string][]named{
+			strings.TrimSuffix(prefix, "vars.") + "plain": badScripts,
 			prefix + "acc": badAddresses,
 			prefix + "ast": badAssets,
 			prefix + "mon": badMonetaryStrings,
@@ -118,6 +130,11 @@ func scriptVarValues(prefix string) (map[string][]named, map[string][]named) {
 		}, map[string][]named{
 			prefix + "monobj": badMonetaryObjects,
 		}
+}
+
+func withValues(m map[string][]named, class string, vals []named) map[string][]named {
+	m[class] = vals
+	return m
 }
 
 func postingValues(prefix string) map[string][]named {
@@ -221,10 +238,11 @@ func c38Seeds(importBody string) []Seed {
 		{API: "v2", Route: "POST /{ledger}/_bulk", Name: "atomic", Write: true, BodyParsed: true,
 			Req:        post("/v2/l1/_bulk", bulk, KV{"atomic", "true"}, KV{"continueOnFailure", "false"}, KV{"parallel", "false"}),
 			MustReject: anyRule(postingFieldRule("*.data.postings.*."), monetaryVarRule("*.data.script.vars.mon")), BodyRequired: true,
-			Values:    postingValues("*.data.postings.*."),
+			Values:    withValues(postingValues("*.data.postings.*."), "*.data.script.plain", badScripts),
 			RawValues: map[string][]named{"*.data.script.vars.mon": badMonetaryObjects}},
 		{API: "v2", Route: "POST /{ledger}/_bulk", Name: "continue", Write: true, BodyParsed: true,
 			Req: post("/v2/l1/_bulk", bulk, KV{"continueOnFailure", "true"}), BodyRequired: true, Extra: []string{"schemaVersion"}, PartialEffect: true,
+			Values:     map[string][]named{"*.data.script.plain": badScripts},
 			MustReject: anyRule(postingFieldRule("*.data.postings.*."), monetaryVarRule("*.data.script.vars.mon"))},
 		{API: "v2", Route: "GET /{ledger}/_info", Req: get("/v2/l1/_info")},
 		{API: "v2", Route: "GET /{ledger}/stats", Req: get("/v2/l1/stats")},
@@ -266,6 +284,10 @@ func c38Seeds(importBody string) []Seed {
 			AltBody:    `{"script":{"plain":"send [USD/2 1] (\n source = @world\n destination = @dave\n)"}}`,
 			Req:        post("/v2/l1/transactions", v2script),
 			MustReject: monetaryVarRule("script.vars.mon", "script.vars.monobj"), Values: sv, RawValues: svRaw, BodyRequired: true},
+		// the other Numscript runtime (its own parser, its own compiled-script cache)
+		{API: "v2", Route: "POST /{ledger}/transactions", Name: "script-interpreter", Write: true, BodyParsed: true,
+			Req:    post("/v2/l1/transactions", `{"script":{"plain":"vars {\n monetary $mon\n account $acc\n}\nsend $mon (\n source = @world\n destination = $acc\n)","vars":{"mon":"USD/2 3","acc":"erin"}},"runtime":"experimental-interpreter","timestamp":"2023-02-01T00:00:00Z"}`),
+			Values: map[string][]named{"script.plain": badScripts}, BodyRequired: true},
 		{API: "v2", Route: "POST /{ledger}/transactions", Name: "template", Write: true, BodyParsed: true,
 			Req:        post("/v2/ls/transactions", `{"script":{"template":"DEPOSIT","vars":{"dest":"users:u3","mon":"USD/2 9"}},"timestamp":"2023-02-01T00:00:00Z"}`, KV{"schemaVersion", "v1"}),
 			MustReject: monetaryVarRule("script.vars.mon"), BodyRequired: true,
